@@ -300,6 +300,15 @@ def rule_c(repo, chk):
                 return True
         return False
 
+    # the safe set is used for the membership test only (no widening through update()/|=/add())
+    for nm in sorted(safe_names):
+        for x in own_nodes(f):
+            if isinstance(x, ast.Name) and x.id == nm:
+                par = getattr(x, '_parent', None)
+                is_def = isinstance(x.ctx, ast.Store) and isinstance(par, ast.Assign)
+                is_member_test = isinstance(par, ast.Compare) and len(par.ops) == 1 and isinstance(par.ops[0], (ast.In, ast.NotIn)) and par.comparators[0] is x
+                chk.ob('C12.c', is_def or is_member_test, x, 'the safe-path set `%s` is only defined from _get_base_sys_path and used in the membership test' % nm,
+                       'other use: `%s`' % short(repo.enclosing_stmt(x), 70), key='safe-set-use|%s' % norm(repo.enclosing_stmt(x)))
     for call in calls:
         sp = kwarg(call, 'sys_path')
         if sp is None and len(call.args) >= 3:
@@ -345,6 +354,38 @@ def rule_c(repo, chk):
                     not isinstance(getattr(x, '_parent', None), ast.Expr):
                 chk.ob('C12.c', False, x, 'the option name appears as a string (setattr/reflective write?)')
     chk.floor('C12.c', n_st, 1)
+    # who can turn the option on: only the API caller.  Inside jedi no Project is built with the option set, and a project
+    # file discovered next to the analysed sources must not be able to carry it
+    n_ctor = 0
+    for m in repo.modules.values():
+        for c in ast.walk(m.tree):
+            if isinstance(c, ast.Call) and ((call_name(c) == 'Project' and repo.resolve(c.func) in ('jedi.api.project.Project', 'jedi.Project')) or
+                                             (call_name(c) == 'cls' and repo.qual_of(c).startswith('Project.'))):
+                n_ctor += 1
+                kw = kwarg(c, 'load_unsafe_extensions')
+                star = [k for k in c.keywords if k.arg is None]
+                if kw is not None:
+                    chk.ob('C12.c', False, c, 'jedi itself constructs a Project with load_unsafe_extensions=%s' % short(kw))
+                elif star:
+                    # cls(**data): where does data come from?
+                    f = repo.enclosing_func(c)
+                    from_file = any(isinstance(x, ast.Call) and norm(x.func) in ('json.load', 'json.loads') for x in ast.walk(f))
+                    dropped = any(isinstance(x, ast.Call) and call_name(x) == 'pop' and x.args and isinstance(x.args[0], ast.Constant)
+                                  and x.args[0].value == 'load_unsafe_extensions' for x in ast.walk(f))
+                    if from_file and not dropped:
+                        # acceptable only if nobody loads project files from discovered (untrusted) directories
+                        auto = [lc for lc in repo.calls_of('load') if repo.qual_of(lc) == 'get_default_project' and 'Project' in norm(lc.func)]
+                        for lc in auto:
+                            chk.ob('C12.c', False, lc, 'get_default_project loads .jedi/project.json found next to the analysed sources, and Project.load '
+                                   'passes every key of that file (also load_unsafe_extensions) to the constructor',
+                                   'an untrusted tree can opt itself in to unsafe extension loading', key='autoload-project-json')
+                        if not auto:
+                            chk.ob('C12.c', True, c, 'Project.load passes file keys to the constructor, but no discovered directory is loaded')
+                    else:
+                        chk.ob('C12.c', True, c, '`%s` cannot carry load_unsafe_extensions from a file' % short(c, 50))
+                else:
+                    chk.ob('C12.c', True, c, '`%s` leaves load_unsafe_extensions at its default' % short(c, 50))
+    chk.floor('C12.c', n_ctor, 4, '(Project constructions inside jedi)')
     # the safe set is the environment's own path
     b = repo.find(PROJECT, 'Project._get_base_sys_path')
     rets = [r for r in stmts_in(b, ast.Return)]
@@ -352,6 +393,19 @@ def rule_c(repo, chk):
     uses_project = [norm(x) for x in ast.walk(b) if isinstance(x, ast.Attribute) and isinstance(x.value, ast.Name) and x.value.id == 'self']
     chk.ob('C12.c', src_ok and not uses_project, b, '_get_base_sys_path is derived from environment.get_sys_path() only (no project-controlled entry)',
            'self attributes used: %s' % uses_project)
+    # ... and the '' entry (= current directory, possibly the project) is dropped from the raw entries
+    raw = [st for st in stmts_in(b, ast.Assign) if isinstance(st.value, ast.Call) and
+           (call_name(st.value) == 'get_sys_path' or (call_name(st.value) in ('list', 'tuple') and st.value.args and
+            isinstance(st.value.args[0], ast.Call) and call_name(st.value.args[0]) == 'get_sys_path'))]
+    var = raw[0].targets[0].id if raw and isinstance(raw[0].targets[0], ast.Name) else None
+    removes = [c for c in calls_in(b, 'remove') if isinstance(c.func.value, ast.Name) and c.func.value.id == var and c.args and
+               isinstance(c.args[0], ast.Constant) and c.args[0].value == '']
+    other_defs = [st for st in stmts_in(b, (ast.Assign, ast.AugAssign)) if st not in raw and
+                  any(isinstance(t, ast.Name) and t.id == var and isinstance(t.ctx, ast.Store) for t in ast.walk(st))]
+    ret_ok = all(isinstance(r.value, ast.Name) and r.value.id == var for r in rets)
+    chk.ob('C12.c', bool(raw) and bool(removes) and not other_defs and ret_ok, b,
+           "_get_base_sys_path removes the '' entry (current directory) from the environment's raw, untransformed entries and returns that list",
+           'raw assignment: %s; remove(\'\') calls: %d; other definitions: %s' % ([short(x) for x in raw], len(removes), [short(x) for x in other_defs]))
     # auto_import_modules contains no file name a project commonly ships
     s = repo.toplevel('jedi.settings', 'auto_import_modules')
     vals = [e.value for e in s.value.elts] if isinstance(s.value, (ast.List, ast.Tuple)) else None
